@@ -38,7 +38,10 @@ RULE = ("cases come from random.Random(VERIF_SEED). samplers: dense and sparse t
         "estimates on seeded dense / sparse problems; L-BFGS-B through gcp_opt and solve with the real and two "
         "stand-in optimisers, default and explicit options (maxiter pgtol factr m maxls maxfun callback), 1..3 solves "
         "on one object ordered big-small / small-big / big-small-big / small-big-small / same / same size other "
-        "shape / mixed, each compared with a new object and with the object's attributes before the solve. A case is non-trivial when the implementation accepts it and the sample / run is non-empty "
+        "shape / mixed, each compared with a new object and with the object's attributes before the solve; 2-3 solves "
+        "on one stochastic solver with the DEFAULT sampler (sampler=None, directly and through gcp_opt) over solver "
+        "class x dense / sparse x (same shape other pattern | same pattern other values | other shape), every "
+        "function / gradient sample checked against the data of the current solve. A case is non-trivial when the implementation accepts it and the sample / run is non-empty "
         "(at least one sample, at least one completed epoch); distinct = distinct case hash")
 ASSUMPTIONS = [
     "np.random.uniform(0,1,size) returns size numbers in [0,1) and np.random.choice(n,size) size integers below n "
@@ -1106,7 +1109,10 @@ def real_problem(c):
     if c.get("dscale") is not None:
         arr = arr * float(Fraction(c["dscale"]))
     if c["sparse"]:
-        arr = arr * (r.uniform(size=shape) < 0.5)
+        # the sparsity pattern: from its own seed / density when given (same pattern, other values and
+        # same shape, other pattern are then expressible), else from the data stream
+        mr = np.random.RandomState(c["mseed"]) if c.get("mseed") is not None else r
+        arr = arr * (mr.uniform(size=shape) < float(Fraction(c.get("density", "1/2"))))
         # a completely full / completely empty sptensor cannot be sampled (error path, degenerate)
         arr.flat[0] = 1.0
         arr.flat[arr.size - 1] = 0.0
@@ -1143,7 +1149,8 @@ class SolverReal(Family):
     reuse vs fresh; the trace against the objective recomputed here on the recorded function sample;
     the correction range every estimate call was given."""
     name = "solver_real"
-    theorems = ("C13_best_model", "C13_trace_length", "C13_nfails", "C13_lower_bound", "C13_reusable")
+    theorems = ("C13_best_model", "C13_trace_length", "C13_nfails", "C13_lower_bound", "C13_reusable",
+                "C13_reusable_sampler")
 
     def gen(self, rng, tier):
         n = 30 if tier == "quick" else 180
@@ -1188,6 +1195,32 @@ class SolverReal(Family):
                     base = base or p
                 probs.append(p)
             out.append({"kind": kind, "hyper": h, "problems": probs})
+        # sequences of 2-3 solves on ONE object with the DEFAULT sampler (sampler=None; the solver builds it from
+        # the data of the solve): solver class x data kind x relation between consecutive problems
+        k = 0
+        for rep in range(1 if tier == "quick" else 5):
+            for kind in ("sgd", "adam", "adagrad"):
+                for sparse in (False, True):
+                    for rel in ("same-shape-other-pattern", "same-pattern-other-values", "other-shape"):
+                        h = {"rate": rng.choice(["1/100", "1/20"]), "decay": "1/2", "max_fails": rng.choice([0, 1]),
+                             "epoch_iters": rng.choice([1, 2]), "max_iters": rng.choice([1, 2, 3]), "f_est_tol": None,
+                             "beta1": "9/10", "beta2": "999/1000", "eps": "1/100000000"}
+                        obj = rng.choice(["gaussian", "poisson"]) if sparse else rng.choice(["gaussian", "rayleigh", "custom"])
+                        a = {"shape": rng.sample([2, 3, 4, 5], rng.choice([2, 3])), "rank": rng.randint(1, 2),
+                             "sparse": sparse, "objective": obj, "lb": rng.choice(["0", "1/4"]),
+                             "dseed": rng.randrange(10 ** 6), "seed": rng.randrange(10 ** 6),
+                             "mseed": rng.randrange(10 ** 6), "density": rng.choice(["1/4", "1/2", "3/4"]),
+                             "default_sampler": True, "fkind": None, "gkind": None, "fsamp": None, "gsamp": None,
+                             "via": ["solve", "gcp_opt"][k % 2]}
+                        b = dict(a, dseed=rng.randrange(10 ** 6), seed=rng.randrange(10 ** 6), via=["gcp_opt", "solve"][k % 2])
+                        if rel == "same-shape-other-pattern":
+                            b.update(mseed=rng.randrange(10 ** 6),
+                                     density=rng.choice([d for d in ("1/4", "1/2", "3/4") if d != a["density"]]))
+                        elif rel == "other-shape":
+                            b.update(shape=rng.sample([2, 3, 4, 5], rng.choice([2, 3])), mseed=rng.randrange(10 ** 6))
+                        probs = [a, b] + ([dict(a, seed=rng.randrange(10 ** 6))] if k % 3 != 2 else [])
+                        out.append({"kind": kind, "hyper": h, "problems": probs, "relation": rel})
+                        k += 1
         return out
 
     @staticmethod
@@ -1329,6 +1362,7 @@ class SolverReal(Family):
         tags = [kind, f"solves{len(c['problems'])}"] + sorted({p["objective"] for p in c["problems"]}) + \
                sorted({"via-" + p.get("via", "solve") for p in c["problems"]}) + \
                sorted({f"f={p.get('fkind')}/g={p.get('gkind')}" for p in c["problems"]}) + \
+               (["default-sampler", "rel=" + c.get("relation", "-")] if any(p.get("default_sampler") for p in c["problems"]) else []) + \
                sorted({"sparse" if p["sparse"] else "dense" for p in c["problems"]})
         run_reply = next(rep for what, _, rep in replies if what == "run")
         ok_i = 0
@@ -1339,8 +1373,6 @@ class SolverReal(Family):
                 return Verdict("violation", f"solve #{k + 1} raised: {r.get('exc')}: {r.get('msg')}", r, None, None, tags)
             o = r["ok"]
             what = spec_solve(h, x["lb"], None, o, True)
-            if not what and o["cfg_changed"]:
-                what = f"the solve changed the configuration of the solver object: {o['cfg_changed']}"
             if not what:
                 what = o["crng_misuse"]
             if not what and o["n_fsamples_drawn"] != 1:
@@ -1349,6 +1381,8 @@ class SolverReal(Family):
                 what = "a function-value estimate was not computed on the fixed function sample"
             if not what and o["bad_sample"]:
                 what = o["bad_sample"]
+            if not what and o["cfg_changed"]:
+                what = f"the solve changed the configuration of the solver object: {o['cfg_changed']}"
             if not what and x["steps"]:
                 # the documented per-solve state starts every solve from the state of a new object
                 b0 = x["steps"][0]["before"]
